@@ -25,6 +25,7 @@ from fractions import Fraction
 import z3
 
 INF = float("inf")
+UNEXPECTED = "no unexpected exception (%s)"
 
 
 class Unsupported(BaseException):
@@ -969,6 +970,9 @@ def run_concrete(harness, params, inputs, model, exact=False):
             c.notes["end"] = "abort"
         except CutPath:
             c.notes["end"] = "cut"
+        except Exception as e:  # the real code raised where the harness expects no exception
+            c.notes["end"] = "exception"
+            c.failed_conc.append((UNEXPECTED % type(e).__name__, 0, str(e)[:200]))
     finally:
         deactivate()
     return c
@@ -1009,6 +1013,20 @@ def explore(harness, params=None, model="R", seed=0, witness_every=1, max_paths=
                 end = "cut"
                 st.cut += 1
                 res.cuts[str(e)] = res.cuts.get(str(e), 0) + 1
+            except Exception as e:
+                # the real code raised on a feasible path where the harness expects no exception:
+                # an obligation failure for every input on this path; witness = any model of the pc
+                end = "exception"
+                st.paths += 1
+                st.obligations += 1
+                st.nontrivial += 1
+                r, m = c._check()
+                if r == z3.sat:
+                    c.violations.append(Violation(UNEXPECTED % type(e).__name__, 0,
+                                                  c.model_inputs(m), str(e)[:200]))
+                else:
+                    res.engine_errors.append("exception %s: %s on a path without model" % (
+                        type(e).__name__, e))
             except Unsupported as e:
                 end = "unsupported"
                 res.engine_errors.append("Unsupported: %s (prefix %s)" % (e, _pfx(c.decisions)))
